@@ -249,16 +249,16 @@ type posT struct {
 }
 
 type specT struct {
-	Mode     string   `json:"mode"` // worker | single
-	Tier     string   `json:"tier"`
-	Shard    int      `json:"shard"`
-	Of       int      `json:"of"`
-	KeyDir   string   `json:"key_dir"`
-	Seeds    string   `json:"seeds_file"`
-	Progress string   `json:"progress_file"`
-	Scratch  string   `json:"scratch"`
-	Start    posT     `json:"start"`
-	Skip     []posT   `json:"skip"`
+	Mode     string `json:"mode"` // worker | single
+	Tier     string `json:"tier"`
+	Shard    int    `json:"shard"`
+	Of       int    `json:"of"`
+	KeyDir   string `json:"key_dir"`
+	Seeds    string `json:"seeds_file"`
+	Progress string `json:"progress_file"`
+	Scratch  string `json:"scratch"`
+	Start    posT   `json:"start"`
+	Skip     []posT `json:"skip"`
 	// Disabled: decoders that already killed fatalFuse workers (out of memory, stack overflow, hang);
 	// they are not called any more in this run (reported as a cap next to the violations)
 	Disabled []string `json:"disabled,omitempty"`
@@ -630,13 +630,13 @@ type parent struct {
 	fatalMu  sync.Mutex
 	fatal    map[string]int  // decoder -> worker deaths / confirmed hangs
 	disabled map[string]bool // decoders over the fuse
-	r       *ev.Run
-	spaces  []*Space
-	scratch string
-	keyDir  string
-	seeds   string
-	only    []string
-	order   string
+	r        *ev.Run
+	spaces   []*Space
+	scratch  string
+	keyDir   string
+	seeds    string
+	only     []string
+	order    string
 
 	mu        sync.Mutex
 	calls     map[string]int64
